@@ -228,6 +228,9 @@ func (e *Encoder) writeValue(val reflect.Value, tagType byte) error {
 				if t.omitEmpty && isEmptyValue(v) {
 					continue
 				}
+				if v.Kind() == reflect.Pointer && v.IsNil() {
+					continue // a nil pointer field has no NBT image, like a nil embedded pointer
+				}
 				typ, v := getTagType(v)
 				if typ == TagEnd {
 					return fmt.Errorf("encode %q error: unsupport type %v", t.name, v.Type())
@@ -306,7 +309,8 @@ func getTagType(v reflect.Value) (byte, reflect.Value) {
 			break
 		}
 		if v.IsNil() {
-			v.Set(reflect.New(v.Type().Elem()))
+			// NBT has no null value; never allocate into the caller's value.
+			return TagEnd, v
 		}
 		if v.Type().NumMethod() > 0 && v.CanInterface() {
 			i := v.Interface()
